@@ -16,35 +16,35 @@ variable {V E : Type} [DecidableEq V]
 /-- `maxIterations = 0` is reported, not success. -/
 theorem run_zero_iterations (ev : Bindings V → E → Outcome Bool) (mf : Nat) (P : List (Rule V E))
     (F : List (Fact V)) : run ev mf P 0 F = (F, some .limitIter) := by
-  sorry
+  rfl
 
 /-- (b) A successful run reached its fixpoint: one more round derives nothing new. -/
 theorem ok_is_fixpoint (ev : Bindings V → E → Outcome Bool) (mf mi : Nat) (P : List (Rule V E))
     (F W : List (Fact V)) (h : run ev mf P mi F = (W, none)) :
     ∃ new, stepAll ev W P [] = (new, none) ∧ ∀ f ∈ new, f ∈ W := by
-  sorry
+  exact run_fixpoint ev mf P mi F W h
 
 /-- (a) Success stays strictly below the fact limit (the code reports the limit as soon as
 the count *reaches* `maxFacts`; the model follows the code). -/
 theorem ok_below_fact_limit (ev : Bindings V → E → Outcome Bool) (mf mi : Nat) (P : List (Rule V E))
     (F W : List (Fact V)) (h : run ev mf P mi F = (W, none)) : W.length < mf := by
-  sorry
+  exact run_ok_lt ev mf P mi F W h
 
 /-- (a) The fact-limit error is raised only when the limit was really reached. -/
 theorem fact_limit_sound (ev : Bindings V → E → Outcome Bool) (mf mi : Nat) (P : List (Rule V E))
     (F W : List (Fact V)) (h : run ev mf P mi F = (W, some .limitFacts)) : W.length ≥ mf := by
-  sorry
+  exact run_limitFacts_ge ev mf P mi F W h
 
 /-- The world only grows during a run, whatever the outcome. -/
 theorem run_monotone (ev : Bindings V → E → Outcome Bool) (mf mi : Nat) (P : List (Rule V E))
     (F W : List (Fact V)) (e : Option RunErr) (h : run ev mf P mi F = (W, e)) : ∀ f ∈ F, f ∈ W := by
-  sorry
+  exact run_subset ev mf P mi F W e h
 
 /-- One round of a run that does not stop: the fact count strictly grows, so a run of
 `mi` rounds that ends with the iteration limit has derived at least `mi` new facts. -/
 theorem iter_limit_means_growth (ev : Bindings V → E → Outcome Bool) (mf mi : Nat) (P : List (Rule V E))
     (F W : List (Fact V)) (h : run ev mf P mi F = (W, some .limitIter)) : W.length ≥ F.length + mi := by
-  sorry
+  exact run_limitIter_growth ev mf P mi F W h
 
 /-- (a)+(b) for authorization: `Authorize` succeeds only if every run it performed —
 the authority-level run and one per later block — completed without any error, in
@@ -54,28 +54,45 @@ theorem authorize_ok_runs_completed (cfg : EvalCfg) (tok : Token) (s : AuthState
     (∃ w ap, authorityPhase cfg tok.authority s = (w, .ok ap) ∧
       ∀ b ∈ tok.blocks,
         (runWorld cfg s.limits { facts := insertAll w.facts b.facts, rules := b.rules }).2 = none) := by
-  sorry
+  cases hap : authorityPhase cfg tok.authority s with
+  | mk w r =>
+    cases r with
+    | error e =>
+      rw [authorize, authorizeWith_snd_err cfg false tok s w e hap] at h
+      cases h
+    | ok ap =>
+      rw [authorize, authorizeWith_snd_ok cfg false tok s w ap hap] at h
+      obtain ⟨hb, _⟩ := finish_eq_ok _ _ h
+      exact ⟨w, ap, rfl, blockPhase_ok_runs cfg s.limits w.facts tok.blocks 1 ap.failed [] hb⟩
 
 /-- A limit (or any other run error) in the authority-level run is the verdict. -/
 theorem authorize_fails_on_authority_limit (cfg : EvalCfg) (tok : Token) (s : AuthState)
     (w : World) (e : RunErr) (h : authorityPhase cfg tok.authority s = (w, .error e)) :
     (authorize cfg tok s).2 = .runError e := by
-  sorry
+  exact authorizeWith_snd_err cfg false tok s w e h
 
 /-- (c) The limits given at construction are the limits of every later state, whatever
 the history (adds, authorize, query, reset, save/load)… -/
 theorem limits_preserved (cfg : EvalCfg) (pinned : Bool) (toks : List Token) (st : SeqState) (op : AuthOp) :
     (stepOpSeq cfg pinned toks st op).1.auth.limits = st.auth.limits := by
-  sorry
+  exact stepOpSeq_limits cfg pinned toks st op
 
 /-- …and a fresh authorizer carries exactly the supplied limits. -/
 theorem fresh_limits (lim : Limits) : (AuthState.fresh lim).limits = lim := by
-  sorry
+  rfl
 
 /-- …and they are what `Query` runs under. -/
 theorem query_uses_limits (cfg : EvalCfg) (s : AuthState) (q : DRule) (e : RunErr)
     (h : (runWorld cfg s.limits s.world).2 = some e) : (query cfg s q).2 = .error e := by
-  sorry
+  unfold query
+  split
+  · next w e' heq =>
+    rw [heq] at h
+    simp only [Option.some.injEq] at h
+    subst h; rfl
+  · next w heq =>
+    rw [heq] at h
+    cases h
 
 /-! Non-vacuity: a diverging program (successor through `+`) hits each limit. -/
 
